@@ -367,10 +367,20 @@ class PlanJoinTablesQuery:
 
     def plan_join_tables(self, query_in):
 
-        # plan all nested selects in 'where'
+        # plan all nested selects in the clauses of the query and in the join conditions
         find_selects = self.planner.get_nested_selects_plan_fnc(self.planner.default_namespace, force=True)
-        query_in.targets = query_traversal(query_in.targets, find_selects)
-        query_traversal(query_in.where, find_selects)
+        self.planner.plan_nested_selects(query_in, find_selects)
+
+        def plan_join_conditions(node):
+            if isinstance(node, Join):
+                plan_join_conditions(node.left)
+                plan_join_conditions(node.right)
+                if node.condition is not None:
+                    node_out = query_traversal(node.condition, find_selects)
+                    if node_out is not None:
+                        node.condition = node_out
+
+        plan_join_conditions(query_in.from_table)
 
         query = copy.deepcopy(query_in)
 
